@@ -805,7 +805,7 @@ def gen_se_qt(ctx, n):
 
 
 def sub_se_qt(ctx):
-    cases = gen_se_qt(ctx, ctx.n(40, 600))
+    cases = gen_se_qt(ctx, ctx.n(32, 600))
     ctx.sample("se_qt", {k: (v if k != "steps" else [dict(s, q=s["q"][:4], custom=None) for s in v]) for k, v in cases[1].items()})
     ctx.run_cases("se_qt", chk_se_qt, cases)
 
@@ -1171,7 +1171,7 @@ def gen_re_qt(ctx, n):
 
 
 def sub_re_qt(ctx):
-    cases = gen_re_qt(ctx, ctx.n(34, 500))
+    cases = gen_re_qt(ctx, ctx.n(28, 500))
     ctx.sample("re_qt", {k: (v if k != "steps" else [dict(s, q=s["q"][:4]) for s in v]) for k, v in cases[0].items()})
     ctx.run_cases("re_qt", chk_re_qt, cases)
 
@@ -1339,7 +1339,7 @@ def sub_mixed_counts(ctx):
     rng = ctx.rng
     names = sorted(MIX_EXPS)
     cases = []
-    for i in range(ctx.n(14, 160)):
+    for i in range(ctx.n(11, 160)):
         name = names[i % len(names)] if not ctx.quick else ["mqst-322", "mqst-243:20", "mqpt-32:10", "mqmpt-23", "mqst-25", "mqst-322:201", "mqmpt-23:1"][i % 7]
         para = bool((i // len(names)) % 2) if not ctx.quick else bool(i % 2)
         e = get_mix_exp(name, para); sizes = e["sizes"]; ns = len(sizes)
@@ -1601,7 +1601,7 @@ def chk_estimate_sequence(ctx, case):
 def sub_estimate_sequence(ctx):
     rng = ctx.rng
     # (projected gradient descent on the ill-conditioned inverse-covariance losses is slow for > 2 outcomes: quick tier uses QST with 2-outcome testers)
-    plans = [("qst-2-T", 2), ("qst-2-F", 4)] + ([] if ctx.quick else [("qst-2-F", 2), ("qst-2-T", 3), ("qst-2-F", 3), ("qst-2-T", 4)] * 2)
+    plans = [("qst-2-T", 2), ("qst-2-F", 4)][:(1 if ctx.quick else 2)] + ([] if ctx.quick else [("qst-2-F", 2), ("qst-2-T", 3), ("qst-2-F", 3), ("qst-2-T", 4)] * 2)
     cases = []
     for name, mode in plans:
         e = get_exp(name)
